@@ -9,7 +9,16 @@ CONFIG = dict(
              'ticks equal to a neighbouring or deleted interval\'s tick, 25% of the runs with packed authors above bit 14, a third of the runs with 10% merge-mark ticks); '
              'malformed = a valid random prefix followed by one request that is negative, beyond the end, past the end, >= 2^32 (incl. the wrapped values of F12), and bad NewFile arguments; '
              'exbad-emptybeyond / malformed-emptybeyond = the empty request (ins = del = 0) at a position beyond the end (known finding F18), after every valid prefix of <=1 operation on files of 0..4 lines and after random prefixes; '
-             'huge = files of 2^32-1-k and 2^31+-k lines with in-range requests (uint32 boundary). '
+             'huge = files of 2^32-1-k and 2^31+-k lines with in-range requests (uint32 boundary), judged on the run-length array; '
+             'bigval = random sequences whose values sit at the machine limits (16382/16384/16385, 2^15, 2^16, 2^31 each -2/+0/+1, 2^32-2, 2^32-3, marked 2^15-1, 2^16-1, 2^31-1) on files of 0..12 and 250..261 lines; '
+             'scale-asc/-desc/-rnd/-evenodd (field script instead of ops) = a file of k*w+1..7 lines cut into k intervals by one-line replacements in ascending / descending / random / even-then-odd order with values periodic '
+             'in the block number (periods 2^j-1, 2^j, 2^j+1, optional packed author, optional top bits set), then 4k..20 000 churn operations (replacements stamped with a far-away interval\'s value, insertions, deletions at '
+             'interval starts +-1 read from the real tree), mass deletions of a third and of half of the file, a big insertion, a rebuild, emptying the file in three cuts and reusing it; '
+             'k = 255, 257, 1000, 1025, 10 000 (4 shapes each), 32 769, 65 537.. (thorough: 100 000 x 4 and 1 000 000); scale-append/-prepend = one line at a time at the end / front with a changing value (500, 3000, 70 000; thorough 10^6); '
+             'hugemany = files of 2^31-1, 2^31, 2^31+1, 2^31+4097, 3*10^9, 3*10^9+7, 2^32-1001, 2^32-2 lines with 20..400 intervals stamped around each of the anchors 100, 2^31-1000, 2^31, 2^31+1000, 3*10^9, end-100 and '
+             'replacements / insertions / deletions across 2^31 around them; hugebad = the same followed by one request with pos, del <= MaxUint32 and pos+del in 2^32-1..2^32+2^20 (must panic). '
+             'Scale cases are observed lightly after every operation (panic class or Len() and the Updater calls) and fully (node list, File.flatten in run-length form) every 1 000..50 000 operations and at the end; '
+             'every step is judged by the property (validity / rejection, Len(), per-step histogram law), the lines at every checkpoint; the model is stepped up to about 1 000 intervals. '
              'Non-trivial = at least one operation that inserts or deletes was executed without a panic; distinct = distinct (t0, n0, operation list).',
         exhaustive_note='initial lengths 0..4 x all sequences of <=3 in-range operations (quick tier: <=2 operations for lengths 3..4) with pos 0..len, del 0..len-pos, ins 0..2, ticks {t0, t0+1}, '
                         'every prefix observed; plus all malformed single requests with pos, del in -1..len+1, ins in -1..1 after every valid prefix of <=1 operation',
@@ -26,6 +35,10 @@ CONFIG = dict(
         trusted_base=[
             'hand-written Gallina model coq/theories/File/Model.v of internal/burndown/file.go (NewFile, updateTime, Len, Update as of the commits "fix: File.Update kept a wrapped uint32 origin key ..." and "fix: File.Update silently accepted lengths >= 2^32"), tied to the code by the replay of every harness case (node list, Len, Updater calls, panic class after every call)',
             'the property oracle of the driver: extracted arr_update / validb / must_panicb / is_mark plus an OCaml hash table for the running histogram',
+            'files of 2^31..2^32-1 lines (and insertions above 10^6 lines): the extracted run-length oracle rle_update / rle_validb / rle_must_panicb / rle_len / rle_slice / rle_flatten of File/Rle.v, '
+            'proved equal to arr_update / validb / must_panicb / length / the deleted slice / flatten on the expanded array (C03_rle_update, C03_rle_compare, C03_rle_flatten, C03_rle_domain)',
+            'scale cases (10^3..10^6 lines, 10^4..10^5 operations): the plain array is an OCaml int array edited in place (blit + fill) with native integer domain predicates; on every non-scale step of the run '
+            '(about 500 000) these native functions and the run-length oracle are compared with the extracted arr_update / validb / must_panicb and the driver stops on a difference',
         ],
         level_text='Coq theorems over the executable list model of File.Update/NewFile/updateTime: for every well-formed tracker state and every in-range request one Update yields exactly the '
                    'plain-array edit (lines, length), keeps the state well formed, reports deltas whose per-value sums equal the change of the array histogram (nothing when the tick carries '
@@ -38,6 +51,7 @@ CONFIG = dict(
                    'NewFile with a negative length builds a one-node tree on which every later Update panics (outside the quantifier "all initial lengths"; followed by the correspondence only). '
                    'C03_update_refuted_before_fix documents the repaired defect F2 on a model of the code before the fix.',
         technique='machine-checked proof in Coq 8.16 over a hand-written executable Gallina model (about 2 000 lines: locate / deletion loop / prepare / finish blocks, pointwise value reasoning, tabulation) '
-                  '+ extraction to OCaml + replay of Go harness traces (exhaustive small scope, random, malformed, uint32-boundary streams) with an extracted plain-array oracle',
+                  '+ extraction to OCaml + replay of Go harness traces (exhaustive small scope, random, malformed, machine-limit values, uint32-boundary and scale streams up to 10^5..10^6 intervals) with an extracted plain-array oracle '
+                  '(run-length form, proved equivalent, for files that cannot be materialised)',
         search_seconds=120,
     )
